@@ -43,7 +43,7 @@ const (
 
 var allPaths = []string{pUDP, pTCP, pDoQ, pDoH, pUpsUDP, pUpsTCP}
 
-const doqSize = dns.MaxMsgSize
+const doqSize = dns.MaxMsgSize + 2
 
 func main() {
 	// One P: sync.Pool then hands the buffer that was just Put back to the next
